@@ -60,7 +60,6 @@ class TablerowNode(Node):
         name = self.expression.identifier
         it, length = self.expression.evaluate(context)
 
-        context.raise_for_loop_limit(length)
 
         if self.expression.cols is None:
             cols = length
@@ -85,7 +84,7 @@ class TablerowNode(Node):
         character_count += buffer.write('<tr class="row1">\n')
         _break = False
 
-        with context.extend(namespace):
+        with context.loop_carry(length), context.extend(namespace):
             for item in drop:
                 namespace[name] = item
                 character_count += buffer.write(f'<td class="col{drop.col}">')
@@ -117,7 +116,6 @@ class TablerowNode(Node):
         name = self.expression.identifier
         it, length = await self.expression.evaluate_async(context)
 
-        context.raise_for_loop_limit(length)
 
         if self.expression.cols is None:
             cols = length
@@ -142,7 +140,7 @@ class TablerowNode(Node):
         character_count += buffer.write('<tr class="row1">\n')
         _break = False
 
-        with context.extend(namespace):
+        with context.loop_carry(length), context.extend(namespace):
             for item in drop:
                 namespace[name] = item
                 character_count += buffer.write(f'<td class="col{drop.col}">')
